@@ -17,7 +17,8 @@ import (
 	"github.com/facebookincubator/dns/dnsrocks/zzverif/nd"
 )
 
-//verif:harness H06_life property=C06 native=no quick=ops=3,readers=1,sched=0;ops=4,readers=2,sched=0;ops=2,readers=1,sched=1 thorough=ops=5,readers=2,sched=0;ops=2,readers=1,sched=2;ops=4,readers=3,sched=0
+//verif:harness H06_life property=C06 native=no quick=ops=3,readers=1,sched=0,ctl=0;ops=4,readers=2,sched=0,ctl=0;ops=2,readers=1,sched=1,ctl=0;ops=3,readers=1,sched=0,ctl=1 thorough=ops=5,readers=2,sched=0,ctl=0;ops=2,readers=1,sched=2,ctl=0;ops=4,readers=3,sched=0,ctl=0;ops=4,readers=2,sched=0,ctl=1
+//verif:subst H06_life os.RemoveAll github.com/facebookincubator/dns/dnsrocks/dnsserver.verifRemoveAll
 
 type verifLifeCtx struct{}
 
@@ -146,6 +147,15 @@ func H06_late() {
 	verifCheckLifecycle(served, true, "shutdown")
 }
 
+// verifRemoveAll: removing the reload signal file from the control directory may fail
+// (environment: arbitrary outcome).
+func verifRemoveAll(path string) error {
+	if nd.Bool() {
+		return errors.New("verif: remove failed")
+	}
+	return nil
+}
+
 func H06_life() {
 	ops, maxReaders := nd.Param("ops"), nd.Param("readers")
 	verifBackends = nil
@@ -153,6 +163,9 @@ func H06_life() {
 	first := verifNewBackend(nd.Bool()) // the served back end may itself lack the validation key
 	env := verifNewHandler(first, CacheConfig{})
 	env.h.dbConfig.ValidationKey = []byte("k")
+	if nd.Param("ctl") == 1 {
+		env.h.dbConfig.ControlPath = "/ctl" // reloads are signalled through files that Reload removes afterwards
+	}
 	if b := nd.Param("sched"); b > 0 {
 		nd.SchedExplore(b)
 	}
